@@ -267,7 +267,7 @@ def main(tier, seed):
               "never cyclic). 'Confirmed over all paths' = holds for every identity pattern within the id domain.")
     run.functions = FUNCS
     hs, ground_pairs = harnesses(tier, seed)
-    timeout = 12 if tier == "quick" else 240
+    timeout = 12 if tier == "quick" else 60
     run.assumptions = ["term shapes (depth <= 2 over atoms, ints, float, quoted atom, string, f/1, g/2, list cells) are "
                        "enumerated; quick tier: seeded sample of shape pairs",
                        "variable identities range over a domain of min(#variable leaves, 3) ids (2 ids for 4 leaves in the "
